@@ -31,6 +31,7 @@ PROGS = [
     ("pp", "C", "#ifndef G_H\n#define G_H\n#include <stddef.h>\n#if defined(X)\nint a1;\n#else\nint a2;\n#endif\n#define M(a) \\\n    ((a) + \\\n     1)\nint z;\n#endif\n"),
     ("comments", "C", "/* file header\n * two\n */\nint a;\n/* multi\n\n   with blank */\nint b; // trailing\n// line one\n// line two\nint c;\n"),
     ("class", "CPP", "namespace ns {\nclass A {\npublic:\n    A();\n    ~A();\n    int get() const { return x_; }\nprivate:\n    int x_;\n};\nstruct B { int q; };\n}\nusing namespace ns;\nA::A() : x_(0)\n{\n}\nint A_get(A &a)\n{\n    try {\n        return a.get();\n    } catch (...) {\n    }\n    return 0;\n}\n"),
+    ("brace-comments", "C", "struct Q { // members\n    int x;\n    int y;\n};\nint bc(int a)\n{ /* body */\n    for (;;) { // loop\n        a++;\n        break;\n    }\n    int arr[] = { // init\n        1, 2\n    };\n    return a + arr[0];\n}\n"),
     ("nested", "C", "void f(int a)\n{\n    {\n        int k = a;\n        while (k) {\n            k--;\n        }\n    }\n    do {\n        a--;\n    } while (a);\n}\n"),
 ]
 
@@ -106,7 +107,9 @@ def judge_text(src, out, lang, st):
     for idx, l in enumerate(lines[:-1]):
         end = pos + len(l)
         s = l.strip(b" \t")
-        if st.get("eat_blanks_after_open_brace", "false") == "true" and s.endswith(b"{") and not m[end - 1 if end else 0] and not m[end]:
+        # the code part of the line (a trailing comment after the brace does not separate the brace from the blank line)
+        code = bytes(ch for q, ch in enumerate(l) if not m[pos + q]).strip(b" \t")
+        if st.get("eat_blanks_after_open_brace", "false") == "true" and code.endswith(b"{") and not m[end]:
             if idx + 1 < len(lines) - 1 and not lines[idx + 1].strip(b" \t") and idx + 2 < len(lines) and lines[idx + 2].strip():
                 v.append(("blank-line-after-open-brace", "output line %d" % (idx + 1)))
         if st.get("eat_blanks_before_close_brace", "false") == "true" and s.startswith(b"}") and not m[pos + len(l) - len(l.lstrip(b" \t"))]:
